@@ -26,6 +26,7 @@ func init() {
 			"R5 in CER.Parse ErrNoCommonSecurity is returned only on the edge Inband-Security-Id present ∧ ≠ 0 and the missing-origin errors only on the empty-field edges. " +
 			"Also decided: R3 both CEA builders draw the host addresses from the same source (settings first, else the connection); R4 no metadata is stored on any rejection path; R5 the acceptance skeleton: the accepting return of CER.Parse is dominated by the nil-error edges of Unmarshal, the sanity check and the application check, every rejection test is live (its failing edge reaches an error return and is not overridden), and the application scan visits every member of each list before it can accept. " +
 			"R2 also (contradiction rule): where an error type of the state-machine packages wraps another error (has Unwrap), the failure cause must not be selected by comparing the error value with the sentinels. " +
+			"R6 also: the list of locally supported applications is built from every dictionary application except id 0 (the append is conditioned on nothing else), and every dictionary lookup of an advertised id is guarded — in its function or at each call site — by the relay id 0xffffffff having been excluded (accepted) first. " +
 			"NOT decided (not applicable to static analysis): the acceptance predicate over all multisets and orders of application AVPs (validateAll / handleGroup / chooseErr are value-level logic).",
 		Rules: map[string]string{
 			"R1": "rejection closes the connection; acceptance does not",
@@ -43,6 +44,7 @@ func init() {
 func runC11(c *Ctx) {
 	r := c.R
 	c.c11Applications()
+	c.c11Advertised()
 	// CER handler closure
 	var h *ssa.Function
 	var parse *ssa.Call
@@ -1479,4 +1481,160 @@ func (c *Ctx) c11Applications() {
 		r.Undecided("R6", "role:application-loops", "-", "no loop feeds application AVPs to the collector")
 	}
 	r.Ok("R6", "Application:collector-chain", "-", fmt.Sprintf("%d methods lead to the collector; stores to Application fields on that chain go to %s only", len(chain), listFld))
+}
+
+// c11Advertised: two clauses about which applications take part in the exchange. (a) The list of locally supported
+// applications (advertised in the CEA, compared with the peer's) holds every application of the dictionary but the
+// base application: in the function that builds it from (*dict.Parser).Apps(), the append is conditioned, inside
+// the loop, on nothing but the loop's own bound and ID != 0. (b) The relay application id is accepted wherever an
+// advertised id is looked up: every call of (*dict.Parser).App in smparser is guarded by id != 0xffffffff in its
+// function, or every call site of that function is guarded by a test against 0xffffffff.
+func (c *Ctx) c11Advertised() {
+	r := c.R
+	const relay = 0xffffffff
+	// (a)
+	nA := 0
+	for _, f := range c.P.LibraryFuncs() {
+		if pkgOf(f).Path() != pkgSM || f.Signature.Results().Len() != 1 {
+			continue
+		}
+		sl, ok := f.Signature.Results().At(0).Type().Underlying().(*types.Slice)
+		if !ok || !flow.TypeIs(sl.Elem(), pkgSM, "SupportedApp") {
+			continue
+		}
+		callsApps := false
+		for _, ci := range flow.CallInstrs(f) {
+			if flow.IsCallTo(ci, pkgDict, "Parser", "Apps") {
+				callsApps = true
+			}
+		}
+		if !callsApps {
+			continue
+		}
+		loops := flow.Loops(f)
+		for _, ci := range flow.CallInstrs(f) {
+			call, isCall := ci.(*ssa.Call)
+			if !isCall {
+				continue
+			}
+			if b, isB := call.Call.Value.(*ssa.Builtin); !isB || b.Name() != "append" || !types.Identical(call.Type(), f.Signature.Results().At(0).Type()) {
+				continue
+			}
+			l := flow.InnermostLoop(loops, call)
+			if l == nil {
+				continue
+			}
+			nA++
+			key := fname(f) + ":every-dictionary-application-listed"
+			bad := ""
+			var at ssa.Instruction = call
+			for _, g := range flow.Guards(call) {
+				if !l.Blocks[g.If.Block()] {
+					continue
+				}
+				if g.If.Block() == l.Head {
+					continue // the loop's own bound
+				}
+				rl, ok := condRel(g.If.Cond, g.Taken)
+				okGuard := false
+				if ok {
+					// the range loop's index against the length of the list (the loop may be rotated)
+					if ba, isA := rl.a.Type().Underlying().(*types.Basic); isA && ba.Kind() == types.Int {
+						if bb, isB := rl.b.Type().Underlying().(*types.Basic); isB && bb.Kind() == types.Int && rl.op != token.EQL && rl.op != token.NEQ {
+							okGuard = true
+						}
+					}
+				}
+				if ok && rl.op == token.NEQ {
+					for _, pr := range [][2]ssa.Value{{rl.a, rl.b}, {rl.b, rl.a}} {
+						if _, fld, _, isF := flow.FieldOf(flow.Peel(pr[0])); isF && fld == "ID" && isZeroConst(pr[1]) {
+							okGuard = true
+						}
+					}
+				}
+				if !okGuard {
+					bad, at = short(g.If.Cond.String(), 50), g.If
+				}
+			}
+			r.Check(bad == "", "R6", key, c.pos(at), "every application of the dictionary except id 0 is appended to the locally supported list",
+				"the list of locally supported applications skips dictionary applications on a further condition ("+bad+"): an application the accept decision knows (same id under another type, say) is then missing from what the CEA advertises and from the comparison with the peer's list")
+		}
+	}
+	if nA == 0 {
+		r.Undecided("R6", "role:supported-apps-builder", "-", "no function of package sm builds a []*SupportedApp from (*dict.Parser).Apps()")
+	}
+	// (b)
+	isRelayRel := func(g flow.Guard, wantEqual bool) bool {
+		rl, ok := condRel(g.If.Cond, g.Taken)
+		if !ok {
+			return false
+		}
+		want := token.NEQ
+		if wantEqual {
+			want = token.EQL
+		}
+		if rl.op != want {
+			return false
+		}
+		ka, isA := flow.ConstInt(rl.a)
+		kb, isB := flow.ConstInt(rl.b)
+		return isA && uint32(ka) == relay || isB && uint32(kb) == relay
+	}
+	mentionsRelay := func(h *ssa.Function) bool {
+		found := false
+		flow.Instrs(h, func(in ssa.Instruction) {
+			if bo, ok := in.(*ssa.BinOp); ok && bo.Op == token.EQL {
+				for _, v := range []ssa.Value{bo.X, bo.Y} {
+					if k, isK := flow.ConstInt(v); isK && uint32(k) == relay && k != -1 {
+						found = true
+					}
+				}
+			}
+		})
+		return found
+	}
+	notRelayAt := func(in ssa.Instruction) bool {
+		for _, g := range flow.Guards(in) {
+			if isRelayRel(g, false) {
+				return true
+			}
+			cond, neg := flow.Cond(g.If.Cond, g.Taken)
+			if call, isCall := cond.(*ssa.Call); isCall && neg {
+				if h := flow.StaticCallee(call); h != nil && h.Blocks != nil && c.P.IsLibrary(h) && mentionsRelay(h) {
+					return true
+				}
+			}
+		}
+		return false
+	}
+	nB := 0
+	for _, f := range c.P.LibraryFuncs() {
+		if pkgOf(f).Path() != pkgSMParser {
+			continue
+		}
+		for _, ci := range flow.CallInstrs(f) {
+			if !flow.IsCallTo(ci, pkgDict, "Parser", "App") {
+				continue
+			}
+			nB++
+			key := fname(f) + ":relay-id-accepted-before-dictionary-lookup"
+			if notRelayAt(ci) {
+				r.Ok("R6", key, c.pos(ci), "the dictionary is asked only for ids other than the relay id 0xffffffff")
+				continue
+			}
+			sites := c.librarySites(f)
+			bad := len(sites) == 0
+			var at ssa.Instruction = ci
+			for _, cs := range sites {
+				if !notRelayAt(cs) {
+					bad, at = true, cs
+				}
+			}
+			r.Check(!bad, "R6", key, c.pos(at), "every call that leads to the dictionary lookup is made only for ids other than the relay id",
+				"an advertised application id reaches the dictionary lookup without the relay id 0xffffffff having been accepted first: a peer that advertises relay there (inside a Vendor-Specific-Application-Id group, say) is rejected with no common application")
+		}
+	}
+	if nB == 0 {
+		r.Undecided("R6", "role:application-lookup", "-", "no call of (*dict.Parser).App in smparser")
+	}
 }
